@@ -32,7 +32,7 @@ func init() {
 	vc.Register(&vc.Check{
 		ID:    "C34",
 		Level: "exploration",
-		Rule:  "schedules: all interleavings up to the preemption bound (quick 3, thorough 4) of 2-3 threads each running a program of 1-3 lifecycle calls from {Join, Leave, Shutdown} (\"sleep\" = 1.5 s of virtual time, so that calls also start after earlier ones completed) plus an observer thread reading State() every 400 ms of virtual time, on a real Serf node with and without a known alive peer (so that the leave-broadcast wait is exercised); virtual time lets Leave's waits elapse; non-trivial = at least one non-default scheduling choice",
+		Rule:  "schedules: all interleavings up to the preemption bound (quick 3, thorough 4) of 2-3 threads each running a program of 1-3 lifecycle calls from {Join, Leave, Shutdown} (\"sleep\" = 1.5 s of virtual time, so that calls also start after earlier ones completed) plus an observer thread reading State() every 400 ms of virtual time, on a real Serf node alone, with a peer known to Serf (so that the leave-intent broadcast wait is exercised), and with a silent peer known to memberlist (so that memberlist.Leave times out inside Serf.Leave); virtual time lets Leave's waits elapse; non-trivial = at least one non-default scheduling choice",
 		Assumptions: []string{
 			"inert real memberlist; a Join dial is refused by the transport (the join attempt itself is the observable effect)",
 			"'had begun before it was called' is applied in its weakest sound form: a Join called after a Leave/Shutdown returned, or after State() was observed to be past alive, must be refused",
@@ -55,7 +55,7 @@ func c34run(ctx *vc.Ctx) {
 	if ctx.Thorough() {
 		combos = append(combos, []string{"join", "leave", "shutdown"}, []string{"leave;leave", "leave", "shutdown"}, []string{"leave;shutdown;leave", "join;join"})
 	}
-	for _, peer := range []bool{false, true} {
+	for _, peer := range []int{0, 1} {
 		for _, combo := range combos {
 			b := bound
 			if len(combo) == 3 {
@@ -64,9 +64,15 @@ func c34run(ctx *vc.Ctx) {
 			c34explore(ctx, combo, peer, b)
 		}
 	}
+	// peer=2: memberlist itself knows an alive peer that never answers, so memberlist.Leave waits out the
+	// broadcast timeout and reports an error inside Serf.Leave (which Serf only logs): the state must
+	// still move forward only
+	for _, combo := range [][]string{{"leave", "shutdown"}, {"leave;leave", "sleep;shutdown"}, {"leave;join", "leave"}, {"join", "leave"}} {
+		c34explore(ctx, combo, 2, bound-1)
+	}
 }
 
-func c34explore(ctx *vc.Ctx, combo []string, peer bool, bound int) {
+func c34explore(ctx *vc.Ctx, combo []string, peer int, bound int) {
 	var calls []*c34call
 	var obs []c34obs
 	var clock int
@@ -83,11 +89,17 @@ func c34explore(ctx *vc.Ctx, combo []string, peer bool, bound int) {
 		if err != nil {
 			panic(err)
 		}
-		if peer {
+		switch peer {
+		case 1:
 			n.Events().NotifyJoin(n.MLNode("b", 1, nil))
+		case 2:
+			if k, err := n.KnowPeers([]world.Peer{world.AlivePeer("b", 1, serf.VEncodeTags(n.S, nil))}, nil); err != nil || k != 1 {
+				panic(fmt.Sprintf("setup: memberlist join: %d %v", k, err))
+			}
 		}
 		vsched.Quiesce()
 		n.Outbox()
+		n.Tr.Dials = nil
 		look := func(who string) serf.SerfState {
 			st := n.S.State()
 			clock++
